@@ -1661,9 +1661,11 @@ pub mod cs {
         d
       }
     };
-    let mode = rng.below(10);
-    // 0-3 TTL only, 4-5 TTI only, 6 both, 7-9 stale-while-revalidate (needs TTL + loader)
+    let mode = rng.below(11);
+    // 0-3 TTL only, 4-5 TTI only, 6 both, 7-9 stale-while-revalidate (needs TTL + loader),
+    // 10 neither: only entries written with insert_with_ttl ever expire
     let (ttl, tti, grace) = match mode {
+      10 => (None, None, None),
       0..=3 => (Some(pick_dur(rng)), None, None),
       4 | 5 => (None, Some(pick_dur(rng).max(1)), None),
       6 => (Some(pick_dur(rng)), Some(pick_dur(rng).max(1)), None),
